@@ -58,8 +58,8 @@ PROPS = {
     level=MC, engines=[('rel', 'eng_hist'), ('asan', 'eng_hist')],
     technique='bounded exhaustive enumeration of all API histories (constructions, operations incl. image/reachability/saturation, edge copy/assign/self-assign/release, cache clears, reference-count width macros, churn, forest destruction) up to a depth bound on the real library (release and ASan builds), with an exact recount of every reference and cache count and a leak probe after every history',
     rule='every history over the alphabet up to the depth bound per (kind, shape, policy); oracle = A11 exact incoming-count recount (parents + registered dd_edges + nodes under construction), A12 cache recount, A13, register read-back, then release-everything leak probe (every surviving node must be reachable from a still-registered edge) and rebuild of the catalogue. non-trivial = length >= 2',
-    bounds={'quick': '5 kinds + 4 relation scenarios x 5 policies (optimistic, pessimistic, never, sparse+grid+pessimistic, full+heap), alphabet 50-60 symbols incl. DUP(254..65537) and CHURNUP(600), depth 3; ASan build depth 3 on 2 policies',
-            'thorough': 'depth 4'},
+    bounds={'quick': '5 kinds + 4 relation scenarios x 5 policies (optimistic, pessimistic, never, sparse+grid+pessimistic, full+heap), alphabet 50-60 symbols incl. DUP(254..65537) and CHURNUP(600): depth 3 for optimistic/pessimistic on MT bool sets, MT bool identity relations and the saturation scenario, depth 2 elsewhere; ASan build depth 2 on those',
+            'thorough': 'depth 4 where quick has 3, depth 3 elsewhere; ASan depth 3'},
     text='Exhaustive over histories to the depth bound; exact reference and cache recount of every forest after every history, leak probe, and an ASan build for use of reclaimed node memory.',
     note='bounded: depth 3/4 with macro symbols for counter widths and table growth; error paths excluded (C16)',
     design_ref='DESIGN.md 4/C06',
@@ -151,6 +151,35 @@ PROPS = {
     text='Exhaustive over the stated source universes and all ordered kind pairs.',
     note='bounded: 1-2 variables; +infinity only copied to EV+ targets; known finding KF-C10-1',
     design_ref='DESIGN.md 4/C10',
+ ),
+ 'C03': dict(
+    level=EX, engines=[('rel', 'eng_c03')],
+    technique='bounded exhaustive enumeration of every single minterm pattern (fixed / DONT_CARE / DONT_CHANGE at every position) x value x default, every multiset of 2 (and 3) minterms x {max, min} x every admissible default x every rotation of the insertion order, every constant, and every variable edge (all terms vectors), executed on the real library and compared with the definition',
+    rule='patterns = product over variables of ({0..b-1} + DONT_CARE) for sets, ({0..b-1,DC} x {0..b-1,DC,DONT_CHANGE}) for relations; minterms = patterns x value alphabet; (a) every minterm x every default through minterm::buildFunction; (b) every multiset of n minterms (n=2, and n=3 on the smallest shapes) through one reused minterm_coll, buildFunctionMax and buildFunctionMin, defaults restricted to the documented precondition, all rotations; (c) createConstant for every value; (d) createEdgeForVar for every variable, primed/unprimed, every terms vector over V and nullptr. Oracle: reference table from the definition, evaluate + walker, canonical edge. non-trivial = non-constant expected table',
+    bounds={'quick': 'all 8 set kinds on S1-S5 (triples on S1, S2), all 15 relation kinds on S1 (triples), S2 (pairs, 2 values), S3 (single minterms, 144 patterns x 4 values)',
+            'thorough': 'triples on all set shapes, S6, S7; relation S2 pairs with 4 values, S3 pairs with 2 values, S4 singles'},
+    text='Exhaustive over the stated pattern, value, default and multiset menus.',
+    note='bounded: 1-3 variables of size 2-3; collections of at most 3 minterms',
+    design_ref='DESIGN.md 4/C03',
+ ),
+ 'C11': dict(
+    level=EX, engines=[('rel', 'eng_c11')],
+    technique='bounded exhaustive enumeration of every function of the universe x every mask (free / fixed / unchanged at every position) through dd_edge::iterator on the real library, compared with the sorted reference list; CARDINALITY in three result types and node/edge counts against a harness BFS',
+    rule='every function of |V|^points (or the structured family) per kind x every mask: the visited sequence (assignment and value) must equal the lexicographically sorted list of matching non-default assignments exactly (no duplicate, none missing, same order, correct values, iterator ends); one iterator object is restarted for every (edge, mask); pre- and post-increment alternate; CARDINALITY into long, double and mpz; getNodeCount / getEdgeCount(false/true) against distinct reachable nodes/edges. non-trivial = more than one visited assignment',
+    bounds={'quick': 'sets S1-S3 complete, S4-S6 complete for boolean / family otherwise; relations S1 complete, S2 complete for boolean / B0, S3 via B0; mask menu thinned deterministically when functions x masks > 3e6',
+            'thorough': 'adds S7 boolean sets, boolean relations S3 complete (65536 functions), S4 relations via B0'},
+    text='Exhaustive over the stated function universes and mask menus.',
+    note='bounded: <= 16 points per set domain; getEdgeCount is accepted with or without counting the root edge',
+    design_ref='DESIGN.md 4/C11',
+ ),
+ 'C14': dict(
+    level=EX, engines=[('rel', 'eng_c14')],
+    technique='bounded exhaustive enumeration of root lists x writer storage flag x reader storage flag x target forest through mdd_writer / mdd_reader over string streams on the real library; functions compared with tables, canonicity and an exact reference/cache recount of the receiving forest after the reader object is destroyed',
+    rule='root lists: () , (f), (f,f), (f,next f) for every function f of the universe (or family), all ordered pairs for universes <= 16; x 3x3 storage flags x target {same forest, second forest of the same kind, forest created by the reader from the file (only when the writer uses the default reduction rule, which the file format does not record)}. non-trivial = non-constant first root',
+    bounds={'quick': 'all 8 set kinds on S1-S4, all 15 relation kinds on S1, S2', 'thorough': 'adds relations S3'},
+    text='Exhaustive over the stated root lists, storage-flag pairs and targets.',
+    note='bounded: at most 2 roots per file; real values compared with the 1e-5 tolerance of MT real forests',
+    design_ref='DESIGN.md 4/C14',
  ),
 }
 
